@@ -60,6 +60,16 @@ def const_fold(n):
     return None
 
 
+def _lower_worker(args):
+    root, relpath = args
+    import pickle
+    try:
+        from . import cy2ast
+        return pickle.dumps(cy2ast.lower_file(root, relpath))
+    except Exception:
+        return None
+
+
 class ModuleInfo:
     def __init__(self, relpath, tree, name):
         self.relpath = relpath
@@ -158,6 +168,7 @@ class Program:
         self.classes = {}     # qual -> ClassInfo
         self.by_simple = {}
         self._loaded = set()
+        self._pre = {}
 
     # ------------------------------------------------------------------ loading
     def relpaths(self, subdir='cherab', exts=('.py', '.pyx', '.pxd'), skip_tests=True):
@@ -187,6 +198,8 @@ class Program:
             if relpath.endswith('.py'):
                 with open(full, encoding='utf-8') as fh:
                     tree = ast.parse(fh.read(), filename=relpath)
+            elif relpath in self._pre:
+                tree = self._pre.pop(relpath)
             else:
                 from . import cy2ast
                 tree = cy2ast.lower_file(self.root, relpath)
@@ -228,9 +241,31 @@ class Program:
         self.link()
 
     def load_many(self, relpaths):
+        self._preparse(relpaths)
         for p in relpaths:
             self.load(p)
         self.link()
+
+    def _preparse(self, relpaths):
+        """Lower many Cython files in parallel (each worker returns a pickled ast)."""
+        todo = []
+        for p in relpaths:
+            if p.endswith('.pyx'):
+                todo.append(p)
+                if os.path.exists(os.path.join(self.root, p[:-4] + '.pxd')):
+                    todo.append(p[:-4] + '.pxd')
+        todo = [p for p in todo if p not in self._loaded and p not in self._pre and os.path.exists(os.path.join(self.root, p))]
+        if len(todo) < 6:
+            return
+        from concurrent.futures import ProcessPoolExecutor
+        import pickle
+        try:
+            with ProcessPoolExecutor(min(16, len(todo))) as ex:
+                for p, blob in zip(todo, ex.map(_lower_worker, [(self.root, p) for p in todo], chunksize=2)):
+                    if blob is not None:
+                        self._pre[p] = pickle.loads(blob)
+        except Exception:
+            self._pre.clear()
 
     # ------------------------------------------------------------------ linking
     def link(self):
